@@ -162,13 +162,13 @@ def _build(cfg):
         info = FR.info(cfg['space'])
         o = cfg['opt']
         return dict(f=spec.build(info.space, o), info=info, ref=spec.ref(info, o), V=spec.V,
-                    dom=spec.dom(info, o) if spec.dom else None)
+                    dom=spec.dom(info, o) if spec.dom else (lambda z: True))
     if k == 'derived':
         spec = FR.BY_NAME[cfg['name']]
         info = FR.info(cfg['space'])
         o = spec.opts[0]
         f, ref = spec.build(info.space, o), spec.ref(info, o)
-        dom = spec.dom(info, o) if spec.dom else None
+        dom = spec.dom(info, o) if spec.dom else (lambda z: True)
         for kd in cfg['der']:
             d = DV.derive(kd, f, ref, None, info)
             f, ref = d['func'], d['ref']
@@ -183,8 +183,8 @@ def _build(cfg):
         info = FR.info(cfg['space'])
         f1, f2 = s1.build(info.space, o1), s2.build(info.space, o2)
         r1, r2 = s1.ref(info, o1), s2.ref(info, o2)
-        d1 = s1.dom(info, o1) if s1.dom else None
-        d2 = s2.dom(info, o2) if s2.dom else None
+        d1 = s1.dom(info, o1) if s1.dom else (lambda z: True)
+        d2 = s2.dom(info, o2) if s2.dom else (lambda z: True)
         pos = s1.posdom or s2.posdom
         V = FR.V5P if pos else FR.V5
         if k == 'sepsum':
@@ -210,7 +210,7 @@ def _build(cfg):
         o = spec.opts[0]
         f0, r0 = spec.build(info.space, o), spec.ref(info, o)
         A, Aref, keeps_pos = _operator(cfg['op'], info)
-        d0 = spec.dom(info, o) if spec.dom else None
+        d0 = spec.dom(info, o) if spec.dom else (lambda z: True)
         dom = None
         if d0 is not None:
             dom = lambda z: d0(Aref(z))
